@@ -47,6 +47,7 @@ DEFAULT_PROFILE: Dict[str, Any] = {
     "max_iterations": 30,
     "cids": False,
     "output": False,
+    "unhandled_service_errors": True,   # a raising service without onError (-> _fail)
     # exclusions (open findings); each entry is a relation class or a named shape
     "exclude_classes": [],
     "class_weights": None,
@@ -196,7 +197,7 @@ def _gen_actions(d: D, prof, spec, raise_pool: List[str], depth=0) -> List[dict]
 
 
 def _gen_transition(d: D, prof, spec, tree: Tree, src: str, raise_pool: List[str], classes=None,
-                    need_guard=False, no_null=False) -> dict:
+                    need_guard=False, no_null=False, count_excluded=True) -> dict:
     by = _targets_by_class(tree, src)
     excl = set(prof["exclude_classes"])
     avail = sorted(c for c in by if (classes is None or c in classes))
@@ -213,7 +214,7 @@ def _gen_transition(d: D, prof, spec, tree: Tree, src: str, raise_pool: List[str
         cls = d.pick(allowed)
     # count what the exclusion removed from this draw's domain
     for c in avail:
-        if c in excl:
+        if c in excl and count_excluded:
             spec["_excluded"][c] = spec["_excluded"].get(c, 0) + 1
     tgt = d.pick(by[cls])
     t: Dict[str, Any] = {"target": _id_to_path(tree, tgt)}
@@ -243,7 +244,7 @@ def _populate(d: D, prof, spec):
                 if cands:
                     s["htarget"] = _id_to_path(tree, d.pick(cands))
             continue
-        s["entry"] = _gen_actions(d, prof, spec, RAISED if prof["raise"] and prof.get("raise_in_entry", True) and d.chance(30) else [])
+        s["entry"] = _gen_actions(d, prof, spec, RAISED if prof["raise"] and prof.get("raise_in_entry", True) and d.chance(15) else [])
         s["exit"] = _gen_actions(d, prof, spec, [])
         if s["kind"] == "final":
             if prof["output"] and d.chance(50):
@@ -269,7 +270,13 @@ def _populate(d: D, prof, spec):
         if prof["always"] and d.chance(12):
             s["always"] = [_gen_transition(d, prof, spec, tree, sid, [], need_guard=True)]
         if prof["ondone"] and s["kind"] in ("compound", "parallel") and path and d.chance(50):
-            s["onDone"] = _gen_transition(d, dict(prof, p_guard=0), spec, tree, sid, [])
+            # onDone back into the completed state's own line (self/ancestor/descendant) re-completes
+            # it at once: an endless done.state chain, which is C13's subject, not this profile's
+            loopy = ["self", "self-reenter", "child", "descendant", "parent", "ancestor", "root", "targetless"]
+            p2 = dict(prof, p_guard=0)
+            if not prof.get("ondone_loops"):
+                p2["exclude_classes"] = list(prof["exclude_classes"]) + loopy
+            s["onDone"] = _gen_transition(d, p2, spec, tree, sid, [], count_excluded=False)
             s["onDone"].pop("guard", None)
         if prof["after"] and d.chance(15):
             af = []
@@ -286,10 +293,18 @@ def _populate(d: D, prof, spec):
                                           "value": {"v": d.int(0, 3)}}
             inv: Dict[str, Any] = {"src": name, "id": "i" + str(spec["_ninv"])}
             spec["_ninv"] += 1
+            # a handler that exits and re-enters the invoking state restarts the (synchronous)
+            # service at once: an endless done.invoke chain (C13's subject)
+            p3 = prof
+            if not prof.get("invoke_loops"):
+                p3 = dict(prof, exclude_classes=list(prof["exclude_classes"]) + ["self-reenter", "parent", "ancestor", "root"])
             if d.chance(80):
-                inv["onDone"] = [_gen_transition(d, prof, spec, tree, sid, [])]
+                inv["onDone"] = [_gen_transition(d, p3, spec, tree, sid, [], count_excluded=False)]
             if d.chance(70):
-                inv["onError"] = [_gen_transition(d, prof, spec, tree, sid, [])]
+                inv["onError"] = [_gen_transition(d, p3, spec, tree, sid, [], count_excluded=False)]
+            elif not prof["unhandled_service_errors"] and spec["services"][name]["outcome"] == "raise":
+                inv["onError"] = [_gen_transition(d, p3, spec, tree, sid, [], count_excluded=False)]
+                spec["_excluded"]["unhandled-service-error"] = spec["_excluded"].get("unhandled-service-error", 0) + 1
             s["invoke"] = [inv]
     if prof["output"] and d.chance(30):
         spec["output"] = {"k": "lit", "val": {"machine": True}}
